@@ -1242,6 +1242,8 @@ impl GlobalInferenceCtx<'_> {
                             }
                         }
                         Expr::Local(local) => self.tys[self.loc].local_tys[*local],
+                        // `x := (3000000000);` has to widen just like `x := 3000000000;`
+                        Expr::Paren(Some(inner)) => self.tys[self.loc][*inner],
                         Expr::Member {
                             previous,
                             name: field,
